@@ -13,6 +13,7 @@ type GEntry struct {
 	Value   string   `json:"value"`
 	Summary []string `json:"summary,omitempty"` // first element goes on the value line ("" = none there)
 	Open    bool     `json:"open,omitempty"`
+	Sep     string   `json:"sep,omitempty"` // blank between value and summary ("" = one space); trailing when there is no text on the value line
 }
 
 type GRecord struct {
@@ -24,6 +25,7 @@ type GRecord struct {
 	EOL        string   `json:"eol"`
 	BlankAfter []string `json:"blank_after,omitempty"` // texts of the blank lines that follow
 	Y, M, D    int
+	HeadTrail  string `json:"head_trail,omitempty"` // blanks after the headline
 }
 
 type GDoc struct {
@@ -225,6 +227,10 @@ func genEntry(r *Rng, st recStyle, allowOpen bool) GEntry {
 	case 5:
 		e.Summary = []string{"", genSummaryText(r)} // summary starts on the next line
 	}
+	// the parser takes one space OR one tab as the delimiter after the value; a trailing blank is legal too
+	if r.Chance(1, 8) {
+		e.Sep = r.Pick([]string{"\t", "\t", " "})
+	}
 	return e
 }
 
@@ -315,6 +321,16 @@ func genDoc(r *Rng, o docOpts) GDoc {
 			mins := r.Pick2([]int{480, 450, 0, 30, 240, -60})
 			rec.Should = "(" + fmtDuration(mins, false, r) + "!)"
 		}
+		if r.Chance(1, 10) {
+			// blanks the parser tolerates in the headline: a tab or several blanks before the should-total,
+			// a trailing blank
+			if rec.Should != "" {
+				rec.Should = r.Pick([]string{"\t", " ", " \t"}) + rec.Should
+			}
+			if r.Chance(1, 2) {
+				rec.HeadTrail = r.Pick([]string{" ", "\t", "  "})
+			}
+		}
 		for k := r.Intn(4) - 1; k > 0; k-- {
 			rec.Summary = append(rec.Summary, genRecordSummaryLine(r))
 		}
@@ -380,6 +396,7 @@ func (d *GDoc) render() string {
 		if rec.Should != "" {
 			head += " " + rec.Should
 		}
+		head += rec.HeadTrail
 		lines = append(lines, head+eol)
 		for _, s := range rec.Summary {
 			lines = append(lines, s+eol)
@@ -387,10 +404,16 @@ func (d *GDoc) render() string {
 		for _, e := range rec.Entries {
 			first := e.Value
 			rest := e.Summary
-			if len(rest) > 0 {
-				if rest[0] != "" {
-					first += " " + rest[0]
+			sep := e.Sep
+			if len(rest) > 0 && rest[0] != "" {
+				if sep == "" {
+					sep = " "
 				}
+				first += sep + rest[0]
+			} else {
+				first += sep // trailing blank after the value
+			}
+			if len(rest) > 0 {
 				rest = rest[1:]
 			}
 			lines = append(lines, rec.Indent+first+eol)
